@@ -19,7 +19,7 @@ func NewRemoteHTTPFileAsIoReaderAt(ctx context.Context, url string) (ReaderAtClo
 	if err != nil {
 		return nil, 0, err
 	}
-	if contentLength == 0 {
+	if contentLength <= 0 {
 		return nil, 0, fmt.Errorf("missing Content-Length/Content-Range header, or file is empty")
 	}
 
